@@ -86,7 +86,8 @@ def main():
         cwd = os.path.join(wt, moddir)
         rc, out = sh("go build ./...", cwd)
         res["builds"] = rc == 0
-        democmd = "go test -vet=off -count=1 -run '%s' %s" % (runre, rel)
+        race = " -race" if " -race" in cmd.split("#")[0] else ""
+        democmd = "go test -vet=off%s -count=1 -run '%s' %s" % (race, runre, rel)
         rc_with, out_with = sh(democmd, cwd)
         res["demo_fails_with_change"] = rc_with != 0
         # existing tests of touched packages with the change
